@@ -163,7 +163,7 @@ def doc_pools(seed):
 
 # ------------------------------------------------------------------------------------------------ long values
 
-LONG_GROUPS = ["files-hyphen9", "files-other", "texts", "header", "weak-ws"]
+LONG_GROUPS = ["files-hyphen9", "files-other", "texts", "header", "weak-ws", "empty-values"]
 WEAK_WS = [" ", "\t", " \t ", "  ", "\t\t"]
 LONG_GROUPS_THOROUGH = ["files-hyphen9-more", "files-two-hyphens", "files-slash-star", "files-under-long-headers"]
 _REALISTIC = ["debian/*", "doc/*.html", "src/lib-core/*.c", "src/lib-core/*.h", "tests/data-files/*",
@@ -313,6 +313,15 @@ def long_cases(seed, group):
         for p in text_paras:
             for paras in contexts(p):
                 cases.append({"part": "doc", "header": minimal, "paras": paras})
+    elif group == "empty-values":
+        # fields that are present but empty: no copyright text, a licence with neither synopsis nor text
+        for p in (["F", ["*"], "", ["MIT", "text"]], ["F", ["*"], "2020 A", ["", ""]], ["F", ["*"], "", ["", ""]],
+                  ["F", ["a", "b/*"], "", ["GPL-2+", ""]], ["L", ["", ""]]):
+            for paras in contexts(p) + [[p, p]]:
+                cases.append({"part": "doc", "header": minimal, "paras": paras})
+        for paras in ([], [before]):
+            cases.append({"part": "doc", "header": dict(minimal, license=["", ""]), "paras": paras})
+            cases.append({"part": "doc", "header": dict(minimal, name="", source=""), "paras": paras})
     else:
         some_files = [["F", f, "2020 A", ["GPL-2+", ""]] for f in long_files(seed, "files-hyphen9")[70:80]]
         for h in long_headers(seed):
